@@ -145,7 +145,8 @@ impl Gen {
 fn gen_input(rng: &mut Rng, maxlen: usize) -> String {
     let n = rng.range(0, maxlen);
     let mut s = String::new();
-    for _ in 0..n { s.push_str(*rng.pick(&["a", "b", "a", "b", "é", "嗨", "c", "A", "B"][..])); }
+    // incl. characters whose low byte is an ASCII letter / control code (Ł = U+0141, ᵡ = U+1D61, 一 = U+4E00)
+    for _ in 0..n { s.push_str(*rng.pick(&["a", "b", "a", "b", "é", "嗨", "c", "A", "B", "Ł", "ᵡ", "一"][..])); }
     s
 }
 
